@@ -1,0 +1,82 @@
+//! Verification hook (cargo feature `verif-keyset`, off by default): a minimal sorted key set
+//! with the part of `BTreeSet<usize>`'s API that the groups use. `BTreeSet`'s node code is
+//! outside the reach of the bounded model checker used in /verif (see /verif/DESIGN.md); the
+//! groups' own logic is unchanged. Holds at most `CAP` keys.
+
+const CAP: usize = 8;
+
+#[derive(Debug)]
+pub(crate) struct BTreeSet<T> {
+    items: [T; CAP],
+    len: usize,
+}
+
+impl Default for BTreeSet<usize> {
+    fn default() -> Self {
+        Self::new()
+    }
+}
+
+impl BTreeSet<usize> {
+    pub(crate) fn new() -> Self {
+        Self {
+            items: [0; CAP],
+            len: 0,
+        }
+    }
+
+    /// Inserts `value`, keeping the keys sorted. Returns `false` if it was already present.
+    pub(crate) fn insert(&mut self, value: usize) -> bool {
+        let mut pos = 0;
+        while pos < self.len {
+            if self.items[pos] == value {
+                return false;
+            }
+            if self.items[pos] > value {
+                break;
+            }
+            pos += 1;
+        }
+        assert!(self.len < CAP, "verif-keyset: capacity exceeded");
+        let mut i = self.len;
+        while i > pos {
+            self.items[i] = self.items[i - 1];
+            i -= 1;
+        }
+        self.items[pos] = value;
+        self.len += 1;
+        true
+    }
+
+    pub(crate) fn remove(&mut self, value: &usize) -> bool {
+        let mut pos = 0;
+        while pos < self.len {
+            if self.items[pos] == *value {
+                let mut i = pos;
+                while i + 1 < self.len {
+                    self.items[i] = self.items[i + 1];
+                    i += 1;
+                }
+                self.len -= 1;
+                return true;
+            }
+            pos += 1;
+        }
+        false
+    }
+
+    pub(crate) fn contains(&self, value: &usize) -> bool {
+        let mut pos = 0;
+        while pos < self.len {
+            if self.items[pos] == *value {
+                return true;
+            }
+            pos += 1;
+        }
+        false
+    }
+
+    pub(crate) fn iter(&self) -> core::slice::Iter<'_, usize> {
+        self.items[..self.len].iter()
+    }
+}
